@@ -140,7 +140,7 @@ def _matrix(tier, base_seed):
     """Deterministic list of run lines (see harness/control.cpp for the format)."""
     rng = random.Random(base_seed * 7919 + 17)
     layouts = list(LAYOUTS)
-    nrand = 6 if tier == "quick" else 20
+    nrand = 6 if tier == "quick" else 12
     for i in range(nrand):
         k = rng.randint(2, 6)
         cells = rng.sample(range(16), k)
@@ -158,7 +158,7 @@ def _matrix(tier, base_seed):
                     for step in steps:
                         for dcs in ((1, 3) if planner in DIRECTED else (1,)):
                             for budget in budgets:
-                                for k in range(nseeds):
+                                for k in range(nseeds if budget < 20000 else 1):
                                     rows.append((planner, system, name, _mask(cells), s, g, thr, mn, mx, step, dcs, budget, k))
     if tier == "quick":
         # a seeded sample, stratified so that every planner x system x layout cell is present
